@@ -172,6 +172,10 @@ def gen_soup(rng, maxlen=12):
 
 # well-formed documents: ("e", name, attrs, children) | ("v", name, attrs) | ("s", name, attrs) | (kind, text)
 VOID_PY = ["br", "img", "hr", "input"]
+# the void elements of the HTML standard (https://html.spec.whatwg.org/multipage/syntax.html#void-elements plus the
+# obsolete "param"), written out here so that the oracle does not depend on the code under test
+VOID_STD = frozenset(["area", "base", "br", "col", "embed", "hr", "img", "input", "link", "meta", "param", "source",
+                      "track", "wbr"])
 CDATA_PY = ("script", "style")
 
 
@@ -378,7 +382,7 @@ def wf_stream(ctx, for_search=False):
         for f in forests(n, labs):
             yield f
     rng = ctx.rng
-    for _ in range(ctx.budget(1500, 20000, 20000)):
+    for _ in range(ctx.budget(5000, 20000, 20000)):
         yield gen_wf(rng)
 
 
@@ -475,8 +479,7 @@ def enc_query(q):
 def corr(ctx):
     if not ctx.have_runner:
         return
-    from myst_parser.parsers import parse_html as P
-    void = set(P.HtmlToAst.void_elements)
+    void = VOID_STD
     rng = ctx.rng
     # (i) wf documents: spec side (wf, print, events_of) vs independent printer and the real html.parser
     docs, lines = [], []
@@ -528,7 +531,7 @@ def corr(ctx):
 
     # (ii) markup soup: real event stream -> model builder vs real tree
     cases, lines = [], []
-    for i in range(ctx.budget(4000, 60000, 60000)):
+    for i in range(ctx.budget(12000, 60000, 60000)):
         text = gen_soup(rng) if i % 4 else print_doc(gen_wf(rng))
         name = "" if i % 3 else rng.choice(["div", "p", "a"])
         root, events, exc = record_events(text, name)
@@ -705,7 +708,7 @@ def check_wf(ctx, case):
     from myst_parser.parsers import parse_html as P
     hs = case["doc"]
     hs = [tuple_deep(h) for h in hs]
-    if not wf_siblings(hs, set(P.HtmlToAst.void_elements), CDATA_PY):
+    if not wf_siblings(hs, VOID_STD, CDATA_PY):
         return True
     text = print_doc(hs)
     try:
@@ -758,7 +761,7 @@ def search(ctx):
         check_case(ctx, c)
     rng = ctx.rng
     n_fail = 0
-    for i in range(ctx.budget(3000, 40000, 80000)):
+    for i in range(ctx.budget(10000, 40000, 80000)):
         text = gen_soup(rng, 12 if i % 5 else 40)
         name = "" if i % 3 else rng.choice(["div", "p", "a", "br"])
         ctx.search_cases += 1
